@@ -368,6 +368,17 @@ fn main() {
                 .collect();
             cases::write_lines(&out, &lines);
         }
+        Some("trace-types") => {
+            // replay TLC-generated behaviours of Types.tla on real Modules
+            let hists = wv::builder::read_histories(&get("histories", ""));
+            let shards: usize = get("shards", "1").parse().unwrap();
+            let lines: Vec<_> = hists.par_iter().enumerate().map(|(k, h)| wv::types::replay(&format!("t{}", k), h)).collect();
+            for s in 0..shards {
+                let part: Vec<_> = lines.iter().enumerate().filter(|(k, _)| k % shards == s).map(|(_, l)| l.clone()).collect();
+                cases::write_lines(&format!("{}.{}", out, s), &part);
+            }
+            println!("histories {}", lines.len());
+        }
         Some("input") => {
             // print the bytes of one input (hex) given its source string
             let src = get("source", "");
